@@ -169,7 +169,11 @@ def run(tier, seed, only=None):
 
         def ks_rp(ob, env, sc=sc, ins=ins, N=N):
             vals = num_inputs(ins, env)
-            real = float(np.ravel(sc.real(vals)["failure"])[0])
+            if "exponent arguments" in ob.meta["family"]:
+                # the admissible range of the property goes up to 1e12 Pa: replay the sign violation where it matters
+                vals["vonmises"] = vals["vonmises"] / max(1e-30, float(np.max(vals["vonmises"]))) * 1e12
+            with np.errstate(all="ignore"):
+                real = float(np.ravel(sc.real(vals)["failure"])[0])
             f = vals["vonmises"].ravel() / s["yield"] - 1
             lo, hi = f.max(), f.max() + np.log(N) / sc.comp.rho
             bad = not (lo - 1e-9 <= real <= hi + 1e-9) or not np.isfinite(real)
